@@ -62,7 +62,8 @@ def gen_cfg(rng, kind=None):
             sparse = str(r(["csc", "csr"]))
             cplx, cls = False, str(r(["spd", "sym"]))
         cfg.update(n=int(rng.integers(3, 9)), cls=cls, cplx=cplx, sparse=sparse, k=int(r([0, 0, 1, 2, 3])),
-                   pattern=str(r(["full", "full", "banded", "bothdec", "random"])),
+                   pattern=str(r(["full", "full", "banded", "bothdec"])),   # (a freshly drawn 'random' mask per input could make the
+                   # first matrix diagonal: the module then picks a diagonal solver for good -- construction-time contract)
                    cplx_rhs=bool(cplx and rng.random() < 0.6) or bool((not cplx) and sparse is None and rng.random() < 0.2),
                    solver=str(r(["auto", "auto", "auto", "explicit", "cg", "nolda"])),
                    flags=bool(rng.random() < 0.3), part=str(r(["free", "prescribed", "both"])))
